@@ -397,11 +397,34 @@ def r6_genuine_ties(ctx):
         ctx.vanished("score_dict_to_ranking grouping obligations")
 
 
+def _check_defaults(ctx, table):
+    """table: [(function short name, parameter, expected default source text)]"""
+    prog = ctx.prog
+    for fn, param, want in table:
+        f = prog.find_func(fn)
+        if param not in f.params:
+            ctx.violated(f, f.node, f"{fn}: parameter `{param}`", f"parameter `{param}` no longer exists; callers rely on its documented default {want}")
+            continue
+        d = f.param_default(param)
+        got = astx.u(d) if d is not None else "<required>"
+        ctx.check(got == want, f, d if d is not None else f.node, f"{fn}({param}={want}) documented default", got,
+                  f"default of `{param}` is {got}, documented {want}: every caller that omits the argument silently changes behaviour")
+
+
+def r7_defaults(ctx):
+    _check_defaults(ctx, [("tiebreak_set", "profile", "None"), ("tiebreak_set", "tiebreak", "'random'"), ("tiebroken_ranking", "tiebreak", "'random'"),
+                          ("tiebroken_ranking", "profile", "None"), ("elect_cands_from_set_ranking", "profile", "None"), ("elect_cands_from_set_ranking", "tiebreak", "None"),
+                          ("Plurality.__init__", "tiebreak", "None"), ("Borda.__init__", "tiebreak", "None"), ("STV.__init__", "tiebreak", "None"),
+                          ("GeneralRating.__init__", "tiebreak", "None"), ("TopTwo.__init__", "tiebreak", "None"), ("Alaska.__init__", "tiebreak", "None"),
+                          ("PluralityVeto.__init__", "tiebreak", "None")])
+
+
 RULES = [
     ("C10.R1", r1_rng_census, 20, "RNG census: draws only at the documented sites; deterministic rules reach only tiebreak_set's draw"),
     ("C10.R2", r2_only_in_tie, 6, "every tiebreak_set call is dominated by a tie test on its argument (or the overshoot test)"),
     ("C10.R3", r3_recorded, 12, "every resolution flows, keyed by the tied set, into the recorded state's tiebreaks"),
     ("C10.R4", r4_fallback, 7, "scored tiebreaks use the right score restricted to the tie; random fallback only among still-tied"),
+    ("C10.R7", r7_defaults, 13, "no tiebreak unless requested: documented defaults of the tiebreak parameters"),
     ("C10.R6", r6_genuine_ties, 2, "recorded ties are genuine: candidates are grouped by exact equal score"),
     ("C10.R5", r5_groups_obey, 4, "selector splits the resolution prefix/suffix at one point; untied exit shape"),
 ]
